@@ -6,6 +6,9 @@ import DimodProofs.VarsMore
 import DimodProofs.VarsWhole
 import DimodProofs.VarsKeys
 import DimodProofs.VarsKeysRelabel
+import DimodProofs.VarsObj
+import DimodProofs.VarsObjMixin
+import DimodModel.VarsAlphabet
 
 /-! # C13 — Variables is an order-preserving bijection between labels and indices
 
@@ -468,3 +471,223 @@ section Axioms
 #print axioms C13.object_relabel_remove_factor
 #print axioms C13.relabel_raises_iff_merge
 end Axioms
+
+/-! ## Round 7: the object level of the remaining surface, the inherited mixin methods, the range fast path
+
+`DimodModel/VarsObj.lean`: `_extend`, `Variables(iterable)` / `Variables(range(n))`, `copy()`, pickle, `deepcopy`,
+`at`, `__iter__`, `__reversed__`, `v[slice]`, `==` and the `abc.Set` mixins (`isdisjoint`, `<=`, `<`, `>=`, `>`,
+`&`, `|`, `-`, `^`, `_from_iterable`) written over `KState` (the dicts hold Python objects; `1`, `True`, `1.0`,
+`np.int64(1)` are one key, what is stored is the first object, unless it equals its own index: then nothing is
+stored and the label is the `int` index). -/
+
+namespace C13
+open VState (Op2)
+
+/-- a witness object-level state: `Variables(['a', np.int64(7), 2.0, (True, 'x'), 0.0])`, i.e. the dicts hold
+    `np.int64(7)` at 1, nothing at 2 (`2.0 == 2`), the tuple at 3, `0.0` at 4 -/
+def wK : KState :=
+  { i2l := [(0, .str "a"), (1, .npInt 7), (3, .tup [.bool true, .str "x"]), (4, .float 0)],
+    l2i := [(.str "a", 0), (.npInt 7, 1), (.tup [.bool true, .str "x"], 3), (.float 0, 4)], stop := 5 }
+
+theorem wK_inv : wK.toV.Inv := VState.inv_of_invCheck _ (by decide +kernel)
+
+/-- `_extend`, the constructor, `copy()`, pickle and `deepcopy` over objects: `_extend` abstracts to the label-level
+    `_extend` of the canonical labels (flag and kept prefix included); the three copies abstract to the label-level
+    copy / pickle round trip AND hold the very same object (type and value) at every index -/
+theorem object_extend_copy_pickle_factor (k : KState) (h : k.toV.Inv) :
+    (∀ vs p, ((k.extend vs p).1.toV, (k.extend vs p).2) = k.toV.extend (vs.map fun v => v.map PyKey.canon) p ∧
+      (k.extend vs p).1.toV.Inv) ∧
+    (∀ vs, (KState.ofList vs).toV = VState.ofList (vs.map PyKey.canon) ∧ (KState.ofList vs).toV.Inv) ∧
+    (∀ n, (KState.ofRange n).toV = VState.ofRange n) ∧
+    k.copy.toV = k.toV.copy ∧ k.pickleRoundTrip.toV = k.toV.pickleRoundTrip ∧ k.deepcopy.toV = k.toV.pickleRoundTrip ∧
+    (∀ i, k.copy.labelAt i = k.labelAt i ∧ k.pickleRoundTrip.labelAt i = k.labelAt i ∧ k.deepcopy.labelAt i = k.labelAt i) :=
+  ⟨fun vs p => KState.extend_factors vs p k h, KState.ofList_factors, KState.ofRange_factors,
+    KState.copy_factors k, KState.pickle_factors k, KState.deepcopy_factors k, KState.copy_same_objects k⟩
+
+example : wK.toV.Inv ∧ (wK.extend [some (.bool false), some (.npFloat 9), none, some (.float 7)] false).2 = false ∧
+    (wK.extend [some (.bool false), some (.npFloat 9), none, some (.float 7)] false).1.toV.abs =
+      [.str "a", .int 7, .int 2, .tup [.int 1, .str "x"], .int 0] ∧
+    (wK.extend [some (.bool false), some (.npFloat 9), none, some (.float 7)] true).1.toV.abs =
+      [.str "a", .int 7, .int 2, .tup [.int 1, .str "x"], .int 0, .int 9, .int 6] := ⟨wK_inv, by decide +kernel⟩
+
+/-- readers over objects: `at` (both branches, negative indices, IndexError), `__iter__` (both branches) yields the
+    stored objects in index order and their canonical labels are the list, `reversed(v)` is the reversed iteration,
+    `in` / `count` of any alias is list membership of its canonical label -/
+theorem object_readers_factor (k : KState) (h : k.toV.Inv) :
+    (∀ idx, (k.at? idx).map PyKey.canon = k.toV.at? idx) ∧
+    k.iterObjs = (List.range k.stop).map k.labelAt ∧
+    k.iterObjs.map PyKey.canon = k.toV.abs ∧
+    k.reversedObjs = k.iterObjs.reverse ∧
+    (∀ v, k.count v = true ↔ PyKey.canon v ∈ k.toV.abs) :=
+  ⟨KState.at?_factors k h, KState.iterObjs_eq k h, KState.iterObjs_canon k h, KState.reversedObjs_eq k h,
+    KState.count_iff_mem k h⟩
+
+/-- the stored objects with their types (`PyKey.code`: 0 int, 1 bool, 2 float, 3 NumPy int, 4 NumPy float, 5 str,
+    6 tuple): `2.0` is NOT stored (it equals its index, the label is the int `2`), `np.int64(7)` and `0.0` are -/
+example : wK.iterObjs.map PyKey.code = [PyKey.code (.str "a"), PyKey.code (.npInt 7), PyKey.code (.int 2),
+      PyKey.code (.tup [.bool true, .str "x"]), PyKey.code (.float 0)] ∧
+    wK.reversedObjs.map PyKey.code = [PyKey.code (.float 0), PyKey.code (.tup [.bool true, .str "x"]),
+      PyKey.code (.int 2), PyKey.code (.npInt 7), PyKey.code (.str "a")] ∧
+    (wK.at? (-4)).map PyKey.code = some (PyKey.code (.npInt 7)) ∧ (wK.at? 5).map PyKey.code = none := by decide +kernel
+
+/-- `v[slice]` and `==` over objects abstract to the label-level slice / `==` of the canonicalised operand
+    (for which `slice_refines` and `eq_is_list_eq` give the list semantics) -/
+theorem object_slice_eq_factor (k : KState) (h : k.toV.Inv) :
+    (∀ sl, (k.getSlice sl).map KState.toV = k.toV.getSlice sl ∧ ∀ k', k.getSlice sl = some k' → k'.toV.Inv) ∧
+    (∀ o, k.eqOther o = k.toV.eqOther o.canon) :=
+  ⟨KState.getSlice_factors k h, KState.eqOther_factors k h⟩
+
+/-- `v[::-2]` = `[0.0, 2, 'a']`: the `0.0` lands on index 0 and is therefore not stored (label: int `0`), the `2`
+    on index 1 is stored, `'a'` on index 2 -/
+example : (wK.getSlice ⟨some (-1), none, some (-2)⟩).map (fun k => k.iterObjs.map PyKey.code) =
+      some [PyKey.code (.int 0), PyKey.code (.int 2), PyKey.code (.str "a")] ∧
+    wK.eqOther (.seq [.str "a", .float 7, .bool false, .tup [.int 1, .str "x"], .int 0]) = false ∧
+    wK.eqOther (.seq [.str "a", .float 7, .npInt 2, .tup [.int 1, .str "x"], .bool false]) = true ∧
+    wK.eqOther (.set [.npFloat 0, .str "a", .float 7, .npInt 2, .tup [.int 1, .str "x"]]) = true := by decide +kernel
+
+/-- **one step of the whole object-level alphabet is the list step**: every mutator, `_extend`, copy, pickle,
+    deepcopy and slicing on Python objects does to the iteration (canonicalised) exactly what the plain list does,
+    ok/raise flag included, and keeps the invariant -/
+theorem object_step_is_list_step (k : KState) (h : k.toV.Inv) (op : KState.KOp3) (hwf : op.WF) :
+    (k.step3 op).1.toV.Inv ∧
+    (((k.step3 op).1.iterObjs.map PyKey.canon), (k.step3 op).2) = LSpec.step2 (k.iterObjs.map PyKey.canon) op.toOp2 := by
+  obtain ⟨hs, hI⟩ := KState.step3_factors k h op hwf
+  refine ⟨hI, ?_⟩
+  have hwf2 : op.toOp2.WF := by cases op <;> first | exact hwf | trivial
+  have hr := (VState.step2_refines k.toV h op.toOp2 hwf2).2
+  rw [KState.iterObjs_canon _ hI, KState.iterObjs_canon k h, ← hr]
+  have h1 : (k.step3 op).1.toV = (k.toV.step2 op.toOp2).1 := congrArg Prod.fst hs
+  have h2 : (k.step3 op).2 = (k.toV.step2 op.toOp2).2 := congrArg Prod.snd hs
+  rw [h1, h2]
+
+/-- **history theorem over objects**: any finite sequence over the whole alphabet from the empty object: the invariant
+    holds, the object-level state abstracts to the label-level run, and iteration (canonicalised) is the list run -/
+theorem object_history_whole_alphabet (ops : List KState.KOp3) (hwf : ∀ op ∈ ops, op.WF) :
+    let kf := ops.foldl (fun k op => (k.step3 op).1) KState.empty
+    kf.toV.Inv ∧
+    kf.toV = (ops.map KState.KOp3.toOp2).foldl (fun s op => (s.step2 op).1) VState.empty ∧
+    kf.iterObjs.map PyKey.canon = (ops.map KState.KOp3.toOp2).foldl (fun l op => (LSpec.step2 l op).1) [] := by
+  have hf := KState.history3_factors ops KState.empty VState.inv_empty hwf
+  refine ⟨hf.2, hf.1, ?_⟩
+  rw [KState.iterObjs_canon _ hf.2, hf.1]
+  have gen : ∀ (os : List Op2) (s : VState) (l : List Label), s.Inv → s.abs = l → (∀ op ∈ os, op.WF) →
+      (os.foldl (fun s op => (s.step2 op).1) s).abs = os.foldl (fun l op => (LSpec.step2 l op).1) l := by
+    intro os
+    induction os with
+    | nil => intro s l _ e _; exact e
+    | cons o os ih =>
+      intro s l hI e hw
+      have hr := VState.step2_refines s hI o (hw o List.mem_cons_self)
+      simp only [List.foldl_cons]
+      apply ih _ _ hr.1 _ (fun op hop => hw op (List.mem_cons_of_mem _ hop))
+      rw [← e]; exact congrArg Prod.fst hr.2
+  apply gen _ _ _ VState.inv_empty VState.abs_empty
+  intro op hop
+  obtain ⟨o, ho, rfl⟩ := List.mem_map.1 hop
+  have := hwf o ho
+  cases o <;> first | exact this | trivial
+
+example : (KState.KOp3.extend [some (.str "a"), some (.npInt 1), none, some (.float 1)] true).WF ∧
+    KState.KOp3.copy.WF ∧ (KState.KOp3.base (.relabel [(.bool true, .str "a"), (.str "a", .float 1)])).WF ∧
+    KState.KOp3.deepcopy.WF ∧ (KState.KOp3.slice ⟨none, none, some (-1)⟩).WF ∧
+    (KState.KOp3.base (.remove (.npFloat 0))).WF ∧ (KState.KOp3.base (.base .relabelInts)).WF :=
+  ⟨trivial, trivial, by show ([(Label.int 1, Label.str "a"), (.str "a", .int 1)].map Prod.fst).Nodup; decide +kernel, trivial, trivial, trivial, trivial⟩
+
+/-- the `abc.Set` comparison mixins over objects (`other` a Set with pairwise different elements):
+    `isdisjoint`, `<=`, `<`, `>=`, `>` are the list / set statements about canonical labels -/
+theorem object_set_comparisons (k : KState) (h : k.toV.Inv) (o : List PyKey) :
+    (k.isdisjoint o = true ↔ ∀ x ∈ o.map PyKey.canon, x ∉ k.toV.abs) ∧
+    ((o.map PyKey.canon).Nodup →
+      (k.le o = true ↔ ∀ x ∈ k.toV.abs, x ∈ o.map PyKey.canon) ∧
+      (k.lt o = true ↔ (∀ x ∈ k.toV.abs, x ∈ o.map PyKey.canon) ∧ k.toV.abs.length < (o.map PyKey.canon).length) ∧
+      (k.ge o = true ↔ ∀ x ∈ o.map PyKey.canon, x ∈ k.toV.abs) ∧
+      (k.gt o = true ↔ (∀ x ∈ o.map PyKey.canon, x ∈ k.toV.abs) ∧ (o.map PyKey.canon).length < k.toV.abs.length)) :=
+  ⟨KState.isdisjoint_iff k h o, fun ho => ⟨KState.le_iff k h o ho, KState.lt_iff k h o ho, KState.ge_iff k h o ho,
+    KState.gt_iff k h o ho⟩⟩
+
+/-- the `abc.Set` operators over objects return sound `Variables`: `v - o` = the labels of `v` not in `o` (order of
+    `v`); `v & o` = the labels of `o` that are in `v`, order of `o`, first occurrences; `v | o` = `v` then the new labels
+    of `o`; `v ^ o` = `(v - o)` then the labels of `o` (first occurrences) not in `v` -/
+theorem object_set_operators (k : KState) (h : k.toV.Inv) (o : List PyKey) :
+    ((k.sub o).toV.Inv ∧ (k.sub o).toV.abs = k.toV.abs.filter fun x => !decide (x ∈ o.map PyKey.canon)) ∧
+    ((k.and o).toV.Inv ∧ (k.and o).toV.abs =
+      (LSpec.extend [] (((o.map PyKey.canon).filter fun x => decide (x ∈ k.toV.abs)).map some) true).1) ∧
+    ((k.or o).toV.Inv ∧ (k.or o).toV.abs = (LSpec.extend [] ((k.toV.abs ++ o.map PyKey.canon).map some) true).1) ∧
+    ((k.xor o).toV.Inv ∧ (k.xor o).toV.abs = (LSpec.extend []
+      (((k.toV.abs.filter fun x => !decide (x ∈ o.map PyKey.canon)) ++
+        ((LSpec.extend [] ((o.map PyKey.canon).map some) true).1.filter fun x => !decide (x ∈ k.toV.abs))).map some) true).1) :=
+  ⟨KState.sub_abs k h o, KState.and_abs k h o, KState.or_abs k h o, KState.xor_abs k h o⟩
+
+/-- `_from_iterable` of pairwise different labels is that list (so `&` of a duplicate-free `o` is the plain filter) -/
+theorem from_iterable_nodup (l : List Label) (h : l.Nodup) : (LSpec.extend [] (l.map some) true).1 = l :=
+  LSpec.extend_nil_nodup l h
+
+/-- `v & [2, 'zz', 0.0, 2.0, 'a']` = `[2, 0.0, 'a']` holding OTHER's objects (`0.0` on index 1 is stored; `'a'` on index 2);
+    `v - [0.0, 'a']` = `[np.int64(7), 2, (True, 'x')]`: the int `2` now sits on index 1 and is stored -/
+example : (wK.and [.int 2, .str "zz", .float 0, .float 2, .str "a"]).iterObjs.map PyKey.code =
+      [PyKey.code (.int 2), PyKey.code (.float 0), PyKey.code (.str "a")] ∧
+    (wK.sub [.float 0, .str "a"]).iterObjs.map PyKey.code =
+      [PyKey.code (.npInt 7), PyKey.code (.int 2), PyKey.code (.tup [.bool true, .str "x"])] ∧
+    wK.isdisjoint [.float 3, .str "b"] = true ∧ wK.le [.float 0, .str "a", .int 7, .int 2, .tup [.int 1, .str "x"], .int 9] = true ∧
+    wK.ge [.bool false, .float 2] = true ∧ wK.gt [.int 5] = false := by decide +kernel
+
+/-- the range-labelled fast path: `_is_range()` (empty `_label_to_index`) holds exactly when the labels are
+    `0 … n-1` in order, and then the dict-free branches of `count` / `at` / `index` agree with the general ones -/
+theorem range_fast_path_sound (s : VState) (h : s.Inv) :
+    (s.isRange = true ↔ s.abs = (List.range s.stop).map fun i => Label.int (i : Nat)) ∧
+    (s.isRange = true →
+      (∀ z : Int, s.count (.int z) = s.countIntRange z) ∧ (∀ idx : Int, s.at? idx = s.atRange idx) ∧
+      (∀ v : Label, s.index? v = s.indexRange v)) :=
+  ⟨VState.isRange_iff_labels s h, VState.range_fast_path s h⟩
+
+/-- transitions range → materialised → range: the constructor from a range, `_clear`, `_relabel_as_integers` land
+    on the fast path; an append from the fast path stays on it iff the label is the next index; a pop is on it iff
+    what remains is `0 … n-2` -/
+theorem range_transitions (s : VState) (h : s.Inv) :
+    (∀ n, (VState.ofRange n).isRange = true) ∧ (s.step .clear).1.isRange = true ∧ (s.step .relabelInts).1.isRange = true ∧
+    (∀ v, v ∉ s.abs → s.isRange = true → ((s.append v).isRange = true ↔ v = .int s.stop)) ∧
+    (∀ s' l, s.pop = some (s', l) →
+      (s'.isRange = true ↔ s.abs.dropLast = (List.range (s.stop - 1)).map fun i => Label.int (i : Nat))) :=
+  VState.range_transitions s h
+
+example : (VState.ofRange 3).Inv ∧ (VState.ofRange 3).isRange = true ∧
+    ((VState.ofRange 3).append (.str "a")).isRange = false ∧
+    (((VState.ofRange 3).append (.str "a")).pop.map fun p => p.1.isRange) = some true :=
+  ⟨(VState.ofRange_spec 3).1, by decide +kernel⟩
+
+/-- the reflected operators: `other - v` = the labels of `other` (first occurrences) not in `v`; `other | v`,
+    `other & v`, `other ^ v` are `__or__` / `__and__` / `__xor__` themselves (`__ror__ = __or__`, `__rand__ = __and__`,
+    `__rxor__ = __xor__` in `collections.abc.Set`: the labels of `v` come first in `other | v`) -/
+theorem object_set_reflected (k : KState) (h : k.toV.Inv) (o : List PyKey) :
+    ((k.rsub o).toV.Inv ∧ (k.rsub o).toV.abs =
+      (LSpec.extend [] ((o.map PyKey.canon).map some) true).1.filter fun x => !decide (x ∈ k.toV.abs)) ∧
+    ((k.ror o).toV.Inv ∧ (k.ror o).toV.abs = (LSpec.extend [] ((k.toV.abs ++ o.map PyKey.canon).map some) true).1) ∧
+    (∀ x, k.neOther x = !(k.toV.eqOther x.canon)) :=
+  ⟨KState.rsub_abs k h o, KState.ror_abs k h o, fun x => by rw [KState.neOther, KState.eqOther_factors k h]⟩
+
+/-- **the model's alphabet covers the method set of the source**: every `def` / `cpdef` / `cdef` method of
+    `cyVariables`, every method of `class Variables` and every inherited mixin / pickle hook that
+    `harness/translators/vars_methods.py` finds is mapped to a model definition or explicitly out of scope (rendering,
+    serialisation, a helper nothing calls), and no entry of the table is stale.  A method added to (or removed from)
+    the source breaks this theorem. -/
+theorem alphabet_covers_source :
+    (∀ m ∈ Generated.VarsMethods.all, VarsAlphabet.covers m = true) ∧
+    (∀ m ∈ VarsAlphabet.modelled.map Prod.fst ++ VarsAlphabet.outOfScope.map Prod.fst, m ∈ Generated.VarsMethods.all) ∧
+    Generated.VarsMethods.bases = ["cyVariables", "abc.Set[Variable]", "abc.Sequence[Variable]"] := by
+  refine ⟨by decide +kernel, by decide +kernel, by decide +kernel⟩
+
+end C13
+
+section AxiomsR7
+#print axioms C13.object_set_reflected
+#print axioms C13.alphabet_covers_source
+#print axioms C13.object_extend_copy_pickle_factor
+#print axioms C13.object_readers_factor
+#print axioms C13.object_slice_eq_factor
+#print axioms C13.object_step_is_list_step
+#print axioms C13.object_history_whole_alphabet
+#print axioms C13.object_set_comparisons
+#print axioms C13.object_set_operators
+#print axioms C13.range_fast_path_sound
+#print axioms C13.range_transitions
+end AxiomsR7
